@@ -292,7 +292,7 @@ def solve(model, by_unit, const, sn):
         A[ib, ia] -= bb
         rhs[ia] += bb * sh
         rhs[ib] -= bb * sh
-        if lim is not None:
+        if lim is not None and ia != ib:      # a branch between two buses of one fused node carries no DC flow
             lim_r = lim * (1 + 1e-7) + 1e-6 * max(1.0, sn / 100.0)
             row = np.zeros(nv)
             row[ia], row[ib] = bb, -bb
